@@ -99,6 +99,19 @@ CLAIMED["C20"] = (
     "raises are outside the quantifier and counted.",
     "DESIGN.md 3/C20",
 )
+CLAIMED["C16"] = (
+    "validity-predicate oracle over an adversarial Python value pool (bounded-exhaustive x 5 scalars, "
+    "direct and through the executor), Hypothesis integers/floats/text, and generated enum definitions "
+    "x probe values; round trip through the same type's input coercion",
+    "Every outcome of result coercion must be an Exception (a located field error through execute_sync, "
+    "never a crash) or a value of the type's domain: Int an int within 32 bits equal to a numeric input, "
+    "Float a finite number equal to a numeric input (no silent precision loss), String/ID str, Boolean "
+    "bool, enum a declared name whose internal value equals the input; the value is JSON-representable "
+    "and accepted back by the same type's input coercion with the same meaning.",
+    "Which strings Int/Float accept is not asserted; first-of-equal-values and name-as-value for enums are "
+    "documented behaviour.",
+    "DESIGN.md 3/C16",
+)
 PENDING_REASON = (
     "check under construction in this session (DESIGN.md section 3 has its design); it is not claimed "
     "until it has run quietly on the unchanged tree at several seeds"
